@@ -76,7 +76,16 @@ void Mem::set_addr_policy(uint64_t seed)
 bool Mem::alloc_straddling(MemBuf &b, size_t n, size_t align)
 {
         const uintptr_t G4 = (uintptr_t) 1 << 32;
-        size_t x = align * (1 + (size_t) arng_.below((n - 1) / align)); // bytes below the line, 0 < x < n
+        // bytes below the line: mostly 0 < x < n (across it); sometimes 0 (the buffer starts exactly on the line: the low 32 bits of
+        // its address are zero) or n (it ends exactly there)
+        size_t x;
+        unsigned how = (unsigned) arng_.below(8);
+        if (how < 2 || n < 2 || n <= align)
+                x = 0;
+        else if (how == 2 && n % align == 0)
+                x = n;
+        else
+                x = align * (1 + (size_t) arng_.below((n - 1) / align));
         uintptr_t cur = (uintptr_t) base_ + bump_;
         uintptr_t line = (cur + x + PG + G4 - 1) & ~(G4 - 1);
         uintptr_t p = line - x;
@@ -121,7 +130,7 @@ uint8_t *Mem::alloc(size_t n, size_t align, Place pl, Rng *fill, const char *nam
         }
         MemBuf b;
         bool straddles = false;
-        if (straddle_rate_ && n >= 2 && n > align && arng_.below(64) < straddle_rate_)
+        if (straddle_rate_ && n >= 1 && arng_.below(64) < straddle_rate_)
                 straddles = alloc_straddling(b, n, align);
         if (straddles) {
                 b.n = n;
